@@ -744,7 +744,10 @@ class FloatMethod(DeserializationMethod):
         if isinstance(data, float):
             return data
         elif isinstance(data, int) and not isinstance(data, bool):
-            return float(data)
+            try:
+                return float(data)
+            except OverflowError:
+                raise ValidationError("integer too large to be converted to float")
         else:
             raise bad_type(data, float)
 
